@@ -163,7 +163,10 @@ def rsa_cases(rng, quick):
       want = t * pow(p, -1, pj) % pj
       # CRT: q = p (mod Mrest), q = want (mod pj)
       q0 = (p % Mrest) + Mrest * (((want - p % Mrest) * pow(Mrest, -1, pj)) % pj)
-      q = q0 + M48 * (rng.getrandbits(1024 - M48.bit_length() - 2) | 1) * 2
+      # M48 is odd: the multiplier's parity is chosen so that q is odd (for pj = 3 there is one q0 only, and an even q0 plus an even
+      # multiple of M48 never is prime: the thorough tier's random stream hit that and searched forever)
+      r = rng.getrandbits(1024 - M48.bit_length() - 1)
+      q = q0 + M48 * (r + (q0 + r + 1) % 2)
       if gmpy2.is_prime(q):
         break
     out.append(('almostvariant-p%d-%d' % (pj, len(out)), p * q, b'\x01\x00\x01', None))
